@@ -1,6 +1,7 @@
 """C05 — arbitrary bytes never crash, corrupt memory, throw or hang the receivers."""
 import json
 import httpgen as G
+import cligen
 from vlib import hexs, unhex
 
 ALPHA = b"GETPOSTHEAD /HTTP/1.1\r\n\r\n:: \t;=,0123456789abcdefABCDEF-_.Host Content-Length Transfer-Encoding chunked Expect 100-continue\x00\x7f\x80\xff"
@@ -79,11 +80,16 @@ def run(chk):
     chk.cov["max_calls_per_byte_in_a_read"] = round(maxratio, 3)
     chk.cov["samples"] = [pairs[j][0][:200] + " => " + pairs[j][2][:160] for j in (0, len(pairs) // 2) if j < len(pairs)]
     chk.cov["traces_validated_against_impl"] = len(pairs)
+    # the real http_client over the simulated socket under ASan: arbitrary bytes and arbitrary event orders
+    cligen.run(chk, flavour="asan")
     chk.assumptions += ["<cctype> on a negative char is glibc's table lookup (compared for all 256 values by C13/C16 runs of h_pure `ctype`)"]
 
 
 def replay(body):
     import vlib
+    rc = cligen.replay(body)
+    if rc is not None:
+        return rc
     r = body["replay"]
     case = r.get("case")
     if not case:
